@@ -106,6 +106,18 @@ def cases(tier, seed):
   for name in SCALE:
     for i in range(rep):
       add(name, 'scale', i)
+  # a training set with thousands of distinct points (anything that orders or
+  # subsamples points by their raw coordinates shows under a rotation)
+  for i in range(1 if q else 6):
+    r = rng_for('c19-large', seed, i)
+    out.append({'est': 'ITML', 'rel': 'rotate',
+                'params': {'prior': ['identity', 'covariance'][i % 2],
+                           'max_iter': 3},
+                'ds': {'seed': int(r.randint(2**31 - 1)), 'd': 3,
+                       'classes': 3, 'variant': 'plain', 'nmax': 2600,
+                       'nmin': 2400},
+                'n_tuples': 2600, 'seed': int(r.randint(1000)),
+                'rseed': int(r.randint(2**31 - 1))})
   return out
 
 
